@@ -95,8 +95,8 @@ def the_gate(ctx):
     # one-sided defaults
     for st in stmts_of(outer.node):
         if isinstance(st, ast.Assign) and isinstance(st.targets[0], ast.Name) and st.targets[0].id in ('min', 'max') and 'inf' in unparse(st.value):
-            tt = t(st.value)
-            neg = '-1*inf' in T.show(tt).replace(' ', '') or '-inf' in T.show(tt)
+            neg = any(isinstance(n_, ast.UnaryOp) and isinstance(n_.op, ast.USub) and isinstance(n_.operand, ast.Name) and n_.operand.id == 'inf'
+                      for n_ in ast.walk(st.value))
             ctx.check(neg == (st.targets[0].id == 'min'), 'wrap_bounds#onesided-' + st.targets[0].id,
                       'missing %s defaults to %sinf' % (st.targets[0].id, '-' if neg else '+'),
                       'a missing %s bound defaults to %s' % (st.targets[0].id, unparse(st.value)), outer, st)
